@@ -77,6 +77,7 @@ def units(tier, seed):
     for k in range(4):
         u.append(dict(kind="results", chunk=[k, 4]))
     u.append(dict(kind="manager"))
+    u.append(dict(kind="reuse"))
     return u
 
 
@@ -139,6 +140,13 @@ def run_unit(unit, acc):
                 if ln == 2 and (sel[0] + sel[1]) % 5:   # every single pair, and a fixed fifth of the ordered two-element lists
                     continue
                 check_case(dict(kind="results", pairs=[list(pairs[i]) for i in sel], seed=seed), acc)
+    elif unit["kind"] == "reuse":
+        # one map-frame object instance filtered repeatedly while the ego pose changes
+        for px in range(0, 12, 2):
+            for order in ([1, 2, 3], [3, 1, 2], [2, 3, 1, 2]):
+                for lab in (0, 3, 4):
+                    for is_gt in (False, True):
+                        check_case(dict(kind="reuse", map_xy=[10.0 + px * 1.1, -4.0 + px * 0.7], order=order, lab=lab, is_gt=is_gt, seed=seed), acc)
     else:
         pool = _pool()
         for sel in itertools.combinations(range(len(pool)), 3):
@@ -200,6 +208,31 @@ def check_case(case, acc):
             acc.outcome((kept, want))
         if acc.cases % 2003 == 1:
             acc.sample(case)
+    elif k == "reuse":
+        from mc.ref import geom
+        egos = G.ego_menu(seed)
+        mx, my = case["map_xy"]
+        label, name, attrs = LABS[case["lab"]]
+        obj = G.mk3d(dict(x=mx, y=my, yaw=0.3, label=label, name=name, attrs=attrs, score=0.9, pts=5, uuid="u1"), "map", (0.0, 0.0, 0.0))
+        cfgs = [c for c in CFGS if c.get("max_d") and not c.get("conf") and not c.get("uuids")][:4] + [c for c in CFGS if c.get("max_x") and not c.get("conf") and not c.get("uuids")][:2]
+        for step, ei in enumerate(case["order"]):
+            ego = egos[ei]
+            lx, ly, _ = geom.map_to_ego(mx, my, 0.3, ego)
+            rspec = dict(x=lx, y=ly, label=label, name=name, attrs=attrs, score=0.9, pts=5, uuid="u1")
+            tf = G.transforms(ego)
+            for ci, c in enumerate(cfgs):
+                want, margin = RF.keep(rspec, case["is_gt"], c)
+                if margin < RF.BOUNDARY:
+                    acc.skip("boundary")
+                    continue
+                acc.exec()
+                got = filter_objects([obj], case["is_gt"], transforms=tf, **_kwargs(c))
+                acc.compared()
+                kept = len(got) == 1 and got[0] is obj
+                if kept != want:
+                    acc.violation("reuse:stale-pose", "the same map-frame object filtered under ego pose #%d (step %d of %s) is %s, the documented criteria say %s (ego-relative %.3f, %.3f; config %s)" % (
+                        ei, step, case["order"], "kept" if kept else "dropped", "keep" if want else "drop", lx, ly, {a: b for a, b in c.items() if b is not None}), case)
+                acc.state(("reuse", case["lab"], case["is_gt"], step, ei, ci, kept), nontrivial=step > 0)
     elif k == "lists":
         pool = _pool()
         specs = [pool[i] for i in case["sel"]]
